@@ -14,6 +14,7 @@ func minimise(cs *caseT, orig core.Result) core.Result {
 			return false
 		}
 		budget--
+		cs.prg, cs.prgErr = nil, ""
 		r := evaluate(cs, nil)
 		if r.Verdict == core.Violated && r.Monitor == orig.Monitor {
 			best = r
